@@ -41,6 +41,7 @@
   twice between `a` and `c`; the flattening law is therefore stated, and true, for non-empty
   inner sequences `b :: bs` only.  Choices flatten also when the inner choice is empty.
 -/
+import PestModel.Props.Tags
 import PestModel.Lemmas.Algebra
 import PestModel.Props.C01
 
